@@ -355,7 +355,8 @@ def check_case(ctx, case, progs=None, nprog=3, seeds=True):
     # (5) derived programs, optimised and not, vs the same NumPy program on r0
     if progs is None:
         progs = []
-        if r0.ndim >= 1 and r0.size and r0.dtype.kind in "fiu":
+        # choice arrays carry a 0-d meta: programs over them are a known failing class (probe_known (D))
+        if r0.ndim >= 1 and r0.size and r0.dtype.kind in "fiu" and case["dist"] != "choice":
             for _ in range(nprog * 3):
                 p = gen_derived(rng, r0, rng.randint(1, 4))
                 if p is not None:
@@ -576,11 +577,25 @@ def probe_known(ctx):
                      "choice over an array population: a slice of the array is computed from a different realisation")
     except Exception as e:
         ctx.notes["probe.choice-array-population"] = "raises " + repr(e)[:120]
+    # (D) choice arrays advertise a 0-d meta: programs derived from them raise (AxisError at compute; concatenate refuses)
+    try:
+        g = make_gen("RandomState", 3)
+        x = g.choice(9, size=(3,), chunks=2)
+        a = x.compute(**SYNC)
+        ctx.count(("probe", "choice-meta"))
+        got = da.cumsum(x[:, None], axis=0).compute(**SYNC)
+        if not np.array_equal(got, np.cumsum(a[:, None], axis=0)):
+            ctx.fail("random:choice-derived", {"kind": "RandomState", "seed": 3, "program": "cumsum(x[:, None], axis=0)", "got": got.tolist()}, "wrong data")
+    except Exception as e:
+        ctx.fail("random:choice-derived:compute-raises",
+                 {"kind": "RandomState", "seed": 3, "program": "x = da.random.RandomState(3).choice(9, size=(3,), chunks=2); da.cumsum(x[:, None], axis=0).compute()",
+                  "error": repr(e)[:200], "meta_ndim": int(getattr(x._meta, "ndim", -1)) if "x" in dir() else None},
+                 "a program derived from a choice array cannot be computed (the array's meta is 0-d while the array is 1-d)")
 
 
 def search(ctx):
     rng = ctx.rng
-    n = ctx.scale(220, 3000)
+    n = ctx.scale(600, 6000)
     # every distribution x generator kind at least once (stratified), then random
     strat = [(k, d) for d in DISTS for k in GEN_KINDS]
     rng.shuffle(strat)
